@@ -1203,7 +1203,10 @@ impl<'a> Ctx<'a> {
                         // is still running - and still writing - when its limit expires has to be
                         // cut off, however busy that keeps scrut. Only a stall of scrut itself (and
                         // a handful of system calls) is beyond its control.
-                        let stalled: u64 = self.facts.stalls.iter().filter(|(_, st, _)| *st >= cb_t && *st <= x).map(|s| s.2).sum();
+                        // (a stall anywhere since the document started counts: the time that is
+                        // left is worked out before the process is started, and a stall between
+                        // the two is just as much beyond scrut's control)
+                        let stalled: u64 = self.facts.stalls.iter().filter(|(_, st, _)| *st >= t0 && *st <= x).map(|s| s.2).sum();
                         let strict = 20 * MS + stalled + 64 * self.sc.sim.swarm.syscall_cost_ns;
                         let busy_until = p.exit.as_ref().map(|e| e.0).unwrap_or(x);
                         if res == "ok" && x > a.saturating_add(strict) && busy_until > a.saturating_add(strict) && x <= a.saturating_add(slack) {
